@@ -82,6 +82,7 @@ def run(rep, tier):
         advance(rep, c, sfx)
         strlen_rule(rep, c, sfx)
         narrow(rep, c, sfx)
+        popalways(rep, c, sfx)
         if cfg != "nomemchr":
             skiparms(rep, c, sfx)
         else:
@@ -1191,7 +1192,9 @@ def strlen_rule(rep, c, sfx):
                             witness = y["m"]
                         elif kind(y) == "MethodCall" and y["m"] in ("get", "get_mut") and any(sid in len_of(a) for a in y["args"]):
                             witness = "get(range of %s.len())" % strs[sid]
-                        elif kind(y) == "Index" and sid in len_of(y["idx"]):
+                        elif kind(y) == "Index" and sid in len_of(y["idx"]) and "[u8]" in str(peel(y["base"]).get("ty", "")):
+                            # slicing BYTES by the length is a test once it is compared; slicing a str by it panics
+                            # off a character boundary instead of failing
                             witness = "[range of %s.len()]" % strs[sid]
                 if witness is None:
                     r.violation(key, where(x),
@@ -1201,6 +1204,40 @@ def strlen_rule(rep, c, sfx):
                                 "inside a character" % (b["name"], strs[sid]))
     if n == 0:
         r.lost("cursor steps by the length of a string argument (match_string / match_insensitive)")
+
+
+def popalways(rep, c, sfx):
+    r = rep.rule("C03.POPALWAYS" + sfx, 1,
+                 "ParserState::stack_pop removes the top of the stack whether or not the popped string then matches (its "
+                 "documented contract; putting it back after a failure is the business of sequence / look-ahead / "
+                 "restore_on_err): every path that finds an element calls Stack::pop, also the failing ones")
+    fn = c.fn(PS + "::stack_pop")
+    if fn is None:
+        r.lost("ParserState::stack_pop")
+        return
+
+    def is_pop(e):
+        return e.kind == "call" and kind(e.node) == "MethodCall" and e.node["m"] == "pop" and \
+            (hirq.place(e.node["recv"]) or ("", 0, [""]))[2][-1:] == ["stack"]
+    n = 0
+    bad = None
+    for (ev, out) in exits(PathEnum(fn).paths()):
+        # the path on which the stack is known to be empty has nothing to pop
+        empty = any(e.kind == "cond" and e.extra is True and any(
+            kind(y) == "MethodCall" and y["m"] == "is_empty" for y in walk(e.node)) for e in ev)
+        if empty:
+            continue
+        n += 1
+        if not any(is_pop(e) for e in ev):
+            bad = ev
+    r.instance("stack_pop", where(fn["body"]), "%d paths" % n)
+    if bad is not None:
+        r.violation("stack_pop:keeps", where(fn["body"]),
+                    "a path of stack_pop returns without popping (the element is only peeked, or popped on success only): a "
+                    "failed bare POP absorbed by optional / repeat / choice leaves the stack one element deeper than "
+                    "documented, and later POP / PEEK / DROP see different content")
+    if n == 0:
+        r.lost("paths of stack_pop")
 
 
 def narrowing_char_casts(body):
